@@ -4,6 +4,7 @@ package main
 
 import (
 	"fmt"
+	"os"
 	"go/token"
 	"go/types"
 	"math/big"
@@ -231,7 +232,13 @@ func (fv *FV) applyContract(fr *Frame, st *State, c *Contract, args []Value, arg
 		fv.oblige(st, fmt.Sprintf("call-pre %s #%d / requires %d", calleeName, ord, i+1), g, x.Pos())
 		st.assume(g)
 	}
-	if c.PanicWhen != nil {
+	if c.PanicMaybe != "" && fv.c.PanicMaybe == "" {
+		fv.oblige(st, fmt.Sprintf("call-no-panic %s #%d", calleeName, ord), False, x.Pos())
+	}
+	if c.PanicWhen != nil && fv.c.PanicMaybe != "" {
+		fv.trusted["may panic ("+fv.name+"): "+fv.c.PanicMaybe] = true
+		st.assume(Not(env.evalBool(c.PanicWhen)))
+	} else if c.PanicWhen != nil {
 		pc := env.evalBool(c.PanicWhen)
 		allowed := False
 		if fv.c.PanicWhen != nil && fr.top {
@@ -281,6 +288,10 @@ func (fv *FV) applyContract(fr *Frame, st *State, c *Contract, args []Value, arg
 	}
 	fv.applyGhostDefs(post, st, c.GhostDefs)
 	for _, e := range c.Ensures {
+		if os.Getenv("GVC_TRACE") != "" {
+			t := post.evalBool(e)
+			fmt.Printf("TRACE %s ensures %s => %s\n", calleeName, e.String(), truncate(t.String(), 300))
+		}
 		post.assume(st, e)
 	}
 	for _, e := range c.Assumed {
@@ -289,8 +300,13 @@ func (fv *FV) applyContract(fr *Frame, st *State, c *Contract, args []Value, arg
 	}
 	// intermediate assertions of the function under verification (cut points)
 	if fr.top && fv.c != nil {
+		stop := false
 		for i, ca := range fv.c.Asserts {
-			if ca.Ord != ord || !(ca.Callee == calleeName || strings.HasSuffix(calleeName, ")."+ca.Callee) || strings.HasSuffix(calleeName, "."+ca.Callee)) {
+			if ca.Loop != 0 || ca.Ord != ord || !(ca.Callee == calleeName || strings.HasSuffix(calleeName, ")."+ca.Callee) || strings.HasSuffix(calleeName, "."+ca.Callee)) {
+				continue
+			}
+			if ca.Stop {
+				stop = true
 				continue
 			}
 			aenv := fv.loopEnv(fr, st)
@@ -300,10 +316,23 @@ func (fv *FV) applyContract(fr *Frame, st *State, c *Contract, args []Value, arg
 			if len(res) > 0 {
 				aenv.vars["result"] = TV{res[0], results.At(0).Type()}
 			}
+			if ca.Let != "" {
+				v := aenv.eval(ca.Expr)
+				fv.flushSide(st)
+				if fv.lets == nil {
+					fv.lets = map[string]TV{}
+				}
+				fv.lets[ca.Let] = v
+				continue
+			}
 			g := aenv.evalBool(ca.Expr)
 			fv.oblige(st, fmt.Sprintf("assert #%d (after %s #%d)", i+1, ca.Callee, ca.Ord), g, x.Pos())
 			fv.flushSide(st)
 			st.assume(g)
+		}
+		if stop {
+			fv.pathDone()
+			return nil
 		}
 	}
 	return []Outcome{{st: st, results: res}}
@@ -501,6 +530,9 @@ func (fv *FV) callStaticNoInstr(fr *Frame, st *State, fn *ssa.Function, args, bi
 func (fv *FV) loopEnv(fr *Frame, st *State) *Env {
 	env := &Env{fv: fv, pkg: fv.pkgPath, st: st, old: fv.entry, vars: map[string]TV{}, fr: fr}
 	// parameters denote their current values inside loop invariants; name$0 is the entry value
+	for k, v := range fv.lets {
+		env.vars[k] = v
+	}
 	for k, v := range fv.entryEnv {
 		env.vars[k+"$0"] = v
 		if cur, ok := env.localVar(fv.paramSSAName(k)); ok {
@@ -530,6 +562,25 @@ func (fv *FV) paramSSAName(contractName string) string {
 }
 
 func (fv *FV) loopEnter(fr *Frame, st *State, li *loopInfo) {
+	stopHere := false
+	for i, ca := range fv.c.Asserts {
+		if ca.Loop != li.ordinal {
+			continue
+		}
+		if ca.Stop {
+			stopHere = true
+			continue
+		}
+		aenv := fv.loopEnv(fr, st)
+		g := aenv.evalBool(ca.Expr)
+		fv.oblige(st, fmt.Sprintf("assert #%d (at loop %d)", i+1, li.ordinal), g, li.head.Instrs[0].Pos())
+		fv.flushSide(st)
+		st.assume(g)
+	}
+	if stopHere {
+		fv.pathDone()
+		panic(stopPath{})
+	}
 	lc := fv.c.Loops[li.ordinal]
 	if lc == nil {
 		fv.fail("loop %d of %s (block %d) has no invariant in the contract", li.ordinal, fv.name, li.head.Index)
@@ -1100,3 +1151,14 @@ func (fv *FV) chanSend(fr *Frame, st *State, x *ssa.Send) {
 }
 
 var _ = big.NewInt
+
+
+type stopPath struct{}
+
+
+func truncate(s string, n int) string {
+	if len(s) > n {
+		return s[:n] + "..."
+	}
+	return s
+}
